@@ -155,6 +155,52 @@ func (p *projSpec) applySpecEdit(op *opSpec) bool {
 				p.Files[dst] = content
 			}
 		}
+	case "dir-lift":
+		// move the last file of a sub-directory up into the parent directory, keeping its
+		// base name (the pre-order listing of names may stay the same; the tree does not)
+		names := p.filesUnder(op.Path)
+		last := map[string]string{}
+		for _, n := range names {
+			if d := filepath.Dir(n); d != op.Path && n > last[d] {
+				last[d] = n
+			}
+		}
+		var cands []string
+		for d, n := range last {
+			if len(p.filesUnder(d)) > 1 {
+				cands = append(cands, n)
+			}
+		}
+		sort.Strings(cands)
+		if len(cands) > 0 {
+			old := cands[op.N%len(cands)]
+			dst := filepath.Join(filepath.Dir(filepath.Dir(old)), filepath.Base(old))
+			if _, exists := p.Files[dst]; !exists {
+				p.Files[dst] = p.Files[old]
+				delete(p.Files, old)
+			}
+		}
+	case "dir-sink":
+		// the reverse: a file of the source directory moves into one of its sub-directories
+		names := p.filesUnder(op.Path)
+		var direct, subs []string
+		seen := map[string]bool{}
+		for _, n := range names {
+			if d := filepath.Dir(n); d == op.Path {
+				direct = append(direct, n)
+			} else if filepath.Dir(d) == op.Path && !seen[d] {
+				seen[d] = true
+				subs = append(subs, d)
+			}
+		}
+		if len(direct) > 1 && len(subs) > 0 {
+			old := direct[len(direct)-1-op.N%2]
+			dst := filepath.Join(subs[op.N%len(subs)], filepath.Base(old))
+			if _, exists := p.Files[dst]; !exists {
+				p.Files[dst] = p.Files[old]
+				delete(p.Files, old)
+			}
+		}
 	case "subdir-rename":
 		// rename a sub-directory of the source directory (contents and base names unchanged)
 		names := p.filesUnder(op.Path)
@@ -357,7 +403,7 @@ func genSemanticEdit(r *rand.Rand, p *projSpec, serial int) *opSpec {
 			if len(dirs) == 0 {
 				continue
 			}
-			return &opSpec{Op: []string{"dir-add", "dir-remove", "dir-rename", "dir-swap", "dir-move", "dir-move", "subdir-rename", "subdir-rename"}[r.IntN(8)], Path: dirs[r.IntN(len(dirs))], N: serial}
+			return &opSpec{Op: []string{"dir-add", "dir-remove", "dir-rename", "dir-swap", "dir-move", "dir-move", "subdir-rename", "subdir-rename", "dir-lift", "dir-lift", "dir-sink"}[r.IntN(11)], Path: dirs[r.IntN(len(dirs))], N: serial}
 		case 7:
 			var ts []string
 			for i := range p.Targets {
